@@ -13,9 +13,9 @@ import time
 HERE = os.path.dirname(os.path.abspath(__file__))
 
 PROP_SCENARIOS = {
-    "C01": ["status", "container", "pool"], "C02": ["status", "pool", "executor"], "C03": ["pool", "executor"],
-    "C04": ["pool", "killer", "container"], "C05": ["container", "pool"], "C09": ["executor", "pool"],
-    "C10": ["pool", "executor"], "C11": ["killer", "pool"],
+    "C01": ["status", "container", "pool"], "C02": ["status", "twins", "pool", "executor"], "C03": ["pool", "twins", "executor"],
+    "C04": ["pool", "killer", "container", "twins"], "C05": ["container", "pool"], "C09": ["executor", "pool", "twins"],
+    "C10": ["twins", "pool", "executor"], "C11": ["killer", "pool"],
 }
 
 
@@ -112,5 +112,5 @@ if __name__ == "__main__":
         # contracts as monitors over many scenarios on the current tree: nothing may fire
         res = run_scenarios("*", os.environ.get("VERIF_REPO", "/repo"), int(sys.argv[2]) if len(sys.argv) > 2 else 1,
                             float(sys.argv[3]) if len(sys.argv) > 3 else 60, 10**6, stop_at_first=False,
-                            scenarios=["status", "container", "killer", "pool", "executor"])
+                            scenarios=["status", "container", "killer", "pool", "executor", "twins"])
         print(json.dumps(res, indent=1)[:6000])
